@@ -1119,6 +1119,18 @@ impl<'a> G<'a> {
             };
             fs.push(Field { id, name, req, ty, default, annots });
         }
+        // field ids are not always declared in ascending order (a low id appended last, a
+        // fully shuffled struct)
+        if !union_ && fs.len() >= 2 {
+            match self.rng.below(6) {
+                0 => self.rng.shuffle(&mut fs),
+                1 => {
+                    let first = fs.remove(0);
+                    fs.push(first);
+                }
+                _ => {}
+            }
+        }
         fs
     }
 }
@@ -1285,6 +1297,11 @@ pub fn generate(seed: u64, profile: &GenProfile) -> Schema {
         fs.push(Field { id, name: format!("f{}", id), req: Req::Default, ty: Ty::List(Box::new(Ty::Ref(tops[0]))), default: None, annots: vec![] });
         id += 1;
         fs.push(Field { id, name: format!("f{}", id), req: Req::Optional, ty: Ty::Map(Box::new(Ty::Ref(tops[0])), Box::new(Ty::Ref(tops[2]))), default: None, annots: vec![] });
+        // containers nested three deep (in every corpus, not only by chance)
+        id += 1;
+        fs.push(Field { id, name: format!("f{}", id), req: Req::Default, ty: Ty::List(Box::new(Ty::Map(Box::new(Ty::Str), Box::new(Ty::Set(Box::new(Ty::I32)))))), default: None, annots: vec![] });
+        id += 1;
+        fs.push(Field { id, name: format!("f{}", id), req: Req::Optional, ty: Ty::Map(Box::new(Ty::I64), Box::new(Ty::List(Box::new(Ty::List(Box::new(Ty::Ref(tops[0]))))))), default: None, annots: vec![] });
         g.s.defs.push(Def { file, name: format!("S{}", counters.0), kind: Kind::Struct, fields: fs, annots: vec![] });
         counters.0 += 1;
         let ufs: Vec<Field> = tops
@@ -1320,6 +1337,24 @@ pub fn generate(seed: u64, profile: &GenProfile) -> Schema {
         let r2 = new_struct(&mut g);
         g.s.defs[i2].fields = vec![fld(1, Req::Default, Ty::List(Box::new(Ty::Ref(r2)))), fld(2, Req::Default, Ty::Map(Box::new(Ty::Str), Box::new(Ty::Ref(r2))))];
         g.s.defs[r2].fields = vec![fld(1, Req::Optional, Ty::Ref(i2)), fld(2, Req::Required, Ty::Ref(v)), fld(3, Req::Default, Ty::Set(Box::new(Ty::I32)))];
+        // more two-cycles (which member a plugin visits first depends on the definition ids:
+        // several pairs at different distances, alternating declaration order)
+        for k in 0..4 {
+            let (a, b) = if k % 2 == 0 {
+                let a = new_struct(&mut g);
+                let _pad = if k >= 2 { Some(new_struct(&mut g)) } else { None };
+                let b = new_struct(&mut g);
+                (a, b)
+            } else {
+                let b = new_struct(&mut g);
+                let _pad = if k >= 2 { Some(new_struct(&mut g)) } else { None };
+                let a = new_struct(&mut g);
+                (a, b)
+            };
+            // a: the member that also holds the doubles; b: refers back through a list
+            g.s.defs[a].fields = vec![fld(1, Req::Optional, Ty::Ref(b)), fld(2, Req::Optional, Ty::Ref(v))];
+            g.s.defs[b].fields = vec![fld(1, Req::Default, Ty::List(Box::new(Ty::Ref(a))))];
+        }
         // three-cycle
         let p0 = new_struct(&mut g);
         let p1 = new_struct(&mut g);
@@ -1399,6 +1434,11 @@ pub fn generate(seed: u64, profile: &GenProfile) -> Schema {
                 annots: vec![],
             },
             Field { id: 10, name: "f10".into(), req: Req::Default, ty: Ty::List(Box::new(Ty::Double)), default: Some(Lit::List(vec![Lit::Int(1), Lit::Dbl("1.0".into()), Lit::Int(1)])), annots: vec![] },
+            // integer literals on double fields that an f32 cannot hold
+            Field { id: 11, name: "f11".into(), req: Req::Default, ty: Ty::Double, default: Some(Lit::Int(16_777_217)), annots: vec![] },
+            Field { id: 12, name: "f12".into(), req: Req::Optional, ty: Ty::Double, default: Some(Lit::Int(86_400_000_000_001)), annots: vec![] },
+            Field { id: 13, name: "f13".into(), req: Req::Required, ty: Ty::Double, default: Some(Lit::Int(-123_456_789)), annots: vec![] },
+            Field { id: 14, name: "f14".into(), req: Req::Default, ty: Ty::I64, default: Some(Lit::Int(-9_223_372_036_854_775_807)), annots: vec![] },
         ];
         g.s.defs.push(Def { file, name: format!("S{}", counters.0), kind: Kind::Struct, fields: fs, annots: vec![] });
         counters.0 += 1;
